@@ -52,7 +52,8 @@ def op (j : Json) : P Op := do
   | "scn_remove_lanelets" => pure (.scnRemoveLanelets (← getList rmArg j "args") (← getBool j "ref"))
   | "scn_remove_signs" => pure (.scnRemoveSigns (← ids j "xs"))
   | "scn_remove_lights" => pure (.scnRemoveLights (← ids j "xs"))
-  | "scn_remove_inter" => pure (.scnRemoveInter (← getNat j "x"))
+  | "scn_remove_inters" => pure (.scnRemoveInters (← ids j "xs"))
+  | "scn_remove_hanging" => pure (.scnRemoveHanging (← getList rmArg j "args"))
   | "cut_out" => pure (.cutOut (← ids j "keep") (← getBool j "cleanup"))
   | "from_list" => pure (.fromList (← ids j "sel") (← getBool j "cleanup"))
   | o => throw s!"C10: unknown history op {o}"
